@@ -33,11 +33,10 @@ def record_under(prog, prefix, fine=False, max_steps=8000):
 
 
 def replay_under(stored, rec_id, prog, prefix, fine=False, max_steps=8000):
-    """Replays a stored recording (dict id -> serialized form of the in-memory cassette) under the schedule `prefix`."""
-    from playback.tape_cassettes.in_memory.in_memory_tape_cassette import InMemoryTapeCassette
+    """Replays a stored recording (held by a copy of the in-memory cassette it was recorded into) under the schedule `prefix`."""
+    import copy
     s = S.Sched(prefix, trace_files=TRACE_FILES, opcode_attrs=FINE_ATTRS if fine else (), max_steps=max_steps)
-    inner = InMemoryTapeCassette()
-    inner._recordings.update(stored)
+    inner = copy.deepcopy(stored)
     env = P.Env(inner=inner, kind=prog.get('kind', 'inst'), funcs=prog.get('funcs'), enabled=False)
     P.RT.reset()
     P.RT.spawn = _spawner(s)
